@@ -45,9 +45,10 @@ Section CheckerAuth.
     | _, _ => false
     end.
 
-  (* C07's abs with the cached fields supplied by the context. guard: the AuthEvents.Valid()
+  (* C07's abs with the cache-borne fields supplied from outside. guard: the AuthEvents.Valid()
      test, which only gomatrixserverlib.Allowed makes (a context fed by state resolution does not) *)
-  Definition abs9 (guard : bool) (v : view create_info pl_content jrule) (e : json) (auths : list json) : auth_input :=
+  Definition abs9_core (guard : bool) (create : option create_info) (pl_present : bool) (pl : pl_content)
+             (jr : jrule) (e : json) (auths : list json) : auth_input :=
     let r := abs (sig_of e) f e auths in
     {| ai_flags := ai_flags r;
        ai_provider_ok := ai_provider_ok r;
@@ -60,10 +61,10 @@ Section CheckerAuth.
        ai_sender_domain := ai_sender_domain r;
        ai_state_key := ai_state_key r;
        ai_prev := ai_prev r;
-       ai_create := v_create v;
-       ai_pl_present := match v_pl_ev v with Some _ => true | None => false end;
-       ai_pl := match v_pl v with Some p => p | None => pl_zero end;
-       ai_join_rule := match v_jr v with Some j => j | None => JrOther end;
+       ai_create := create;
+       ai_pl_present := pl_present;
+       ai_pl := pl;
+       ai_join_rule := jr;
        ai_sender_member := ai_sender_member r;
        ai_new_member := ai_new_member r;
        ai_target_member := ai_target_member r;
@@ -75,6 +76,12 @@ Section CheckerAuth.
        ai_new_pl_users_ok := ai_new_pl_users_ok r;
        ai_redacts_domain := ai_redacts_domain r;
        ai_cc := ai_cc r |}.
+
+  (* the fields a check reads from the context: createEvent/create, powerLevelsEvent/powerLevels, joinRule *)
+  Definition abs9 (guard : bool) (v : view create_info pl_content jrule) (e : json) (auths : list json) : auth_input :=
+    abs9_core guard (v_create v) (match v_pl_ev v with Some _ => true | None => false end)
+              (match v_pl v with Some p => p | None => pl_zero end)
+              (match v_jr v with Some j => j | None => JrOther end) e auths.
 
   (* allowerContext.allowed; the repaired check never writes to the cached join rule *)
   Definition decide9 (v : view create_info pl_content jrule) (auths : list json) (e : json)
@@ -89,9 +96,7 @@ Section CheckerAuth.
      that order: C07's model with the empty-token repair *)
   Definition abs_fixed (e : json) (auths : list json) : auth_input :=
     let r := abs (sig_of e) f e auths in
-    abs9 true {| v_create_ev := find_auth t_create [] auths; v_create := ai_create r;
-            v_pl_ev := if ai_pl_present r then find_auth t_power_levels [] auths else None;
-            v_pl := Some (ai_pl r); v_jr := Some (ai_join_rule r) |} e auths.
+    abs9_core true (ai_create r) (ai_pl_present r) (ai_pl r) (ai_join_rule r) e auths.
   Definition allowed9 (e : json) (auths : list json) : verdict := decide_model (abs_fixed e auths).
 End CheckerAuth.
 
